@@ -3,6 +3,8 @@ import Jap.Gen.NsTables
 import Jap.Lemmas.NamespaceRun
 import Jap.Lemmas.NamespaceSpec
 import Jap.Lemmas.NamespaceDict
+import Jap.Core.NamespaceMeta
+import Jap.Lemmas.NamespaceMeta
 /-!
 # C11 — Namespace behaves as a nested mapping addressed by dotted keys
 
@@ -201,6 +203,88 @@ theorem C11_dict_roundtrip (clash : List String) (n : Nat) (d : KV)
 theorem C11_dict_roundtrip_mixed_list_counterexample :
     (expandDict [] 4 [(plain "a", .lst [.dct [(plain "b", .atom 1)], .atom 2])]).map asDict
       = .ok [(plain "a", .lst [.ns [(plain "b", .atom 1)], .atom 2])] := by rfl
+
+/-! ## keys / values / truthiness / as_flat agree with `items` -/
+
+/-- `keys()` and `values()` are the two projections of `items()`, position by position -/
+theorem C11_keys_values_items (b : Bool) (root : KV) :
+    (keys b root).zip (values b root) = items b root ∧
+    (keys b root).length = (items b root).length ∧ (values b root).length = (items b root).length :=
+  ⟨keys_zip_values b root, keys_length b root, values_length b root⟩
+
+/-- a falsy namespace has no items (the converse is false: a namespace holding only an empty branch is truthy) -/
+theorem C11_bool_false_no_items (b : Bool) (root : KV) (h : nonEmpty root = false) : items b root = [] :=
+  items_nil_of_not_nonEmpty b root h
+
+example : nonEmpty [(plain "a", .ns [])] = true ∧ items false [(plain "a", .ns [])] = [] := by
+  simp [nonEmpty, items, itemsPref]
+
+/-- `as_flat()` holds one attribute per item key, each carrying a value `items()` yields for that key -/
+theorem C11_as_flat_items (root : KV) :
+    (∀ x ∈ asFlat root, x ∈ items false root) ∧
+    (∀ x ∈ items false root, x.1 ∈ (asFlat root).map (·.1)) ∧
+    ((asFlat root).map (·.1)).Nodup := by
+  refine ⟨fun x hx => ?_, fun x hx => flatFold_keys _ [] hx, flatFold_nodup _ [] (by simp)⟩
+  rcases flatFold_mem (items false root) [] hx with h | h
+  · exact h
+  · cases h
+
+/-! ## strip_meta -/
+
+/-- the result of `strip_meta` holds no meta key at any depth, for every meta-key table -/
+theorem C11_strip_meta_free (m : List String) (root : KV) : metaFreeKV m (stripMeta m root) = true := by
+  unfold stripMeta; split
+  · rename_i h; cases root with
+    | nil => rfl
+    | cons _ _ => simp at h
+  · exact stripKV_metaFree m root
+
+/-- `strip_meta` changes nothing when there is nothing to strip, hence is idempotent -/
+theorem C11_strip_meta_id (m : List String) (root : KV) (h : metaFreeKV m root = true) : stripMeta m root = root := by
+  unfold stripMeta; split
+  · rfl
+  · exact stripKV_id m root h
+
+theorem C11_strip_meta_idempotent (m : List String) (root : KV) :
+    stripMeta m (stripMeta m root) = stripMeta m root :=
+  C11_strip_meta_id m _ (C11_strip_meta_free m root)
+
+/-- every other entry survives `strip_meta` (itself stripped), every meta entry is gone -/
+theorem C11_strip_meta_lookup (m : List String) (k : SKey) (root : KV) :
+    lookup k (stripMeta m root) = if isMetaName m k then none else (lookup k root).map (stripV m) := by
+  unfold stripMeta
+  by_cases he : root.isEmpty = true
+  · cases root with
+    | nil => cases h : isMetaName m k <;> simp [lookup]
+    | cons _ _ => simp at he
+  · simp only [he]
+    cases hk : isMetaName m k
+    · simpa using lookup_stripKV m k hk root
+    · simpa using lookup_stripKV_meta m k hk root
+
+/-! ## get_sorted_keys -/
+
+/-- the returned keys are in order of non-increasing depth … -/
+theorem C11_sorted_keys_sorted (m : List String) (b : Bool) (root : KV) :
+    (getSortedKeys m b root).Pairwise (fun x y => depth x ≥ depth y) := getSortedKeys_sorted m b root
+
+/-- … are exactly (as a multiset) the non-meta leaf keys, plus, with `branches`, parents appended behind them … -/
+theorem C11_sorted_keys_perm (m : List String) (b : Bool) (root : KV) :
+    (getSortedKeys m b root).Perm (unsortedKeys m b root) ∧
+    ((keys false root).filter fun k => !isMetaKey m k) <+: unsortedKeys m true root ∧
+    unsortedKeys m false root = (keys false root).filter fun k => !isMetaKey m k :=
+  ⟨getSortedKeys_perm m b root, by simpa [unsortedKeys] using addParents_prefix _, rfl⟩
+
+/-- … and keys of equal depth keep the order in which `items()` yields them (the sort is stable) -/
+theorem C11_sorted_keys_stable (m : List String) (b : Bool) (root : KV) (x y : String)
+    (hd : depth x ≥ depth y) (h : [x, y].Sublist (unsortedKeys m b root)) :
+    [x, y].Sublist (getSortedKeys m b root) := getSortedKeys_stable m b root x y hd h
+
+/-! executable test (not a theorem; `String.splitOn` does not reduce in the kernel): the regenerated meta-key table
+    filters `a.__path__`, parents are appended, deeper keys come first -/
+#guard getSortedKeys Jap.Gen.metaKeys true
+    [(plain "a", .ns [(plain "b", .ns [(plain "c", .atom 1)]), (plain "__path__", .atom 2)]), (plain "d", .atom 3)]
+    = ["a.b.c", "a.b", "d", "a"]
 
 /-! ## non-vacuity: the hypotheses are met by non-trivial states, with the regenerated clash table -/
 
